@@ -1,9 +1,65 @@
 from specs.common import run, ASSUME_COMMON
 
+# Floors: at most one third of the minimum seen over VERIF_SEED in {1,2,3,7,42,1000,65537,2^31-1}.
+_Q = {
+    "sv_substr_throws": 7000, "sv_substr_returns": 20000, "sv_compare_high_vs_low": 3000, "sv_compare_prefix": 12000,
+    "sv_compare_pos_throws": 7000, "sv_compare_cstr": 12000, "sv_find_found_from_nonzero_pos": 3000, "sv_find_absent": 20000,
+    "sv_equal_true": 5000, "sv_equal_false": 15000, "sv_hash": 15000,
+    "span_views_checked": 300000, "span_views_touching_end": 15000, "span_empty_subviews": 25000, "span_static_extents": 15000,
+    "uptr_ops": 170000, "uptr_convert_derived": 17000, "uptr_array_ops": 6000, "uptr_self_move_assign": 5000,
+    "sptr_ops": 170000, "sptr_copies_of_owner": 5000, "sptr_moves_of_owner": 14000, "sptr_convert_derived": 17000,
+    "sptr_self_assign_probes": 100,
+    "fref_ops": 70000, "fref_null_targets": 7000,
+    "var_ops": 140000, "var_get_throws": 14000, "var_get_returns": 4500, "var_visits": 16000,
+    "var_compare_same_index": 15000, "var_tracked_alternatives": 7500,
+}
+_T = {k: v * 60 for k, v in _Q.items()}
+
 SPEC = {
-    "runs": [run("e1-lockstep", "c20_nostd", "asan", 20000, 1500000, need_lib=False)],
-    "floors": {"quick": {}, "thorough": {}},
+    "runs": [run("e1-lockstep", "c20_nostd", "asan", 10000, 1000000, need_lib=False)],
+    "floors": {"quick": _Q, "thorough": _T},
     "engine": "E1 model-oracle",
-    "technique": "x", "level_text": "x", "level_note": "x", "rule": "x",
-    "assumptions": ASSUME_COMMON,
+    "technique": ("std counterparts driven in lock-step with the nostd types under ASan+UBSan+LSan: std::string_view, an "
+                  "index-checked slice model for span, std::unique_ptr, std::shared_ptr, std::function over std::ref, "
+                  "std::variant; instance-counted payloads per universe"),
+    "level_text": ("exploration: every case runs six seeded programs (string_view, span, unique_ptr, shared_ptr, function_ref, "
+                   "variant) of up to 100 operations; each operation is applied to the nostd object and to its std "
+                   "counterpart and every observable result (values, sign of compare, positions, thrown exception type, "
+                   "handle contents, sharing structure, live-instance count) is compared after every step. Byte strings "
+                   "live in exact-size unterminated heap buffers, payloads are heap objects, so over-reads, double frees "
+                   "and leaks are sanitizer reports. Right level because the property quantifies over operation sequences "
+                   "of small sequential value types whose reference behaviour is available as the std type itself."),
+    "level_note": ("trusts libstdc++'s std types as the oracle and gcc ASan/UBSan/LSan; covers only generated programs "
+                   "(pools of views over one base string and its prefixes/variants, positions 0..size+2 and npos, <=8 "
+                   "handles, a 4-alternative variant, no valueless states); calls std leaves undefined are not generated; "
+                   "compile-time differences (function_ref cannot bind a const-qualified functor, operator bool of the "
+                   "smart pointers is not explicit, members std offers but nostd does not) are outside a run-time check. "
+                   "shared_ptr self-assignment is probed in forked children because a defect there corrupts the heap. "
+                   "Mutation self-test (scratch worktree): signed-char compare, size tie-break flipped, find returning a "
+                   "relative offset, substr clamping instead of throwing, substr count overflow, hash over the pointer, "
+                   "== on length only; span first/last extent, converting-constructor extent, end() off by one (dynamic "
+                   "and static); unique_ptr reset without delete, release keeping the pointer, swap no-op, move-assign "
+                   "leaking, scalar delete of arrays, != inverted; shared_ptr move copying, move-assign leaking the old "
+                   "object, converting move copying, =nullptr no-op, swap dropping a side, from-unique without release; "
+                   "function_ref binding a null function pointer; variant holds_alternative >=, operator< flipped — all caught."),
+    "rule": ("case i = six seeded programs: (1) string_view: 5..100 operations over views of exact-size heap buffers built "
+             "from one base string over the alphabet {a,b,NUL,0x7f,0x80,0xff,blank,z} (prefixes, one-byte variations incl. "
+             "sign-bit flips, extensions, empty, default view, sub-views produced on the way): size/data/[]/conversion, "
+             "substr and the five compare overloads with positions 0..size+2 and npos (same result or std::out_of_range "
+             "exactly when std throws), find(char,pos), == != < > in every spelling, hash of equal views in different "
+             "buffers; (2) span: dynamic and static extents over exact-size storage against a slice model (pointer+count, "
+             "first/last, arrays, containers, const and extent conversions, copies, element access, iteration, writes "
+             "through); (3) unique_ptr and (4) shared_ptr: 5..100 construct/move/copy/reset/release/swap/convert-derived/"
+             "from-std/to-std operations over <=8 handles with instance-counted payloads, every handle, the sharing "
+             "structure and the live count compared after each step, LeakSanitizer at exit; (5) function_ref against "
+             "std::function(std::ref(target)) for functors, lambdas, function pointers, null targets, reference / "
+             "move-only / class-type arguments and results; (6) a 4-alternative variant against std::variant: "
+             "assignment, emplace, copy, move, swap, get/get_if/holds_alternative (bad_variant_access exactly when std "
+             "throws), visit with one and two variants, relational operators, live count of the counted alternative. "
+             "Every program is non-trivial; distinct = distinct hash of its operation/argument sequence."),
+    "assumptions": ASSUME_COMMON + [
+        "libstdc++'s std::string_view / unique_ptr / shared_ptr / function / variant define the expected behaviour; span is judged against an index-checked slice model (C++17 has no std::span)",
+        "only the interface nostd offers is exercised (string_view has find(char) only; span has no subspan/first/last, sub-views are built from pointer+count); out-of-contract calls are never generated",
+        "moved-from std::string / std::vector alternatives have unspecified values: after a variant move only the index of the source is compared and it is re-assigned at once",
+        "hash: only consistency with equality is judged; agreement with std::hash<std::string_view> is counted, not required"],
 }
